@@ -35,6 +35,26 @@ CHECKS = {
    text="Stability and detection are one-step facts decided with a fully symbolic sequence id; the period detector is run on all presence patterns (0/1/2 copies of each of 3..6 consecutive ids), every phase, symbolic start id: it returns -1 or exactly the sender's ds/ps, and exactly ds, ps on clean windows of 2S+2 (fresh and wrapped ring); adoption installs the sender's ratio, consistent paws/caches, and a loss in the next group is recovered at positions 0, ~10^6 and 2^31. Bounded symbolic model checking.",
    note="Trusted: gse, solvers, codec contract, insertion-sort model of sort.Slice. Small ratios only (d+p <= 6); the 258+2(d+p) bound is not decided for large d+p.",
    design="§4 C16"),
+ "C08": dict(
+   text="Differential check of the hand-unrolled encrypt8/16 and decrypt8/16 against a 15-line textbook full-block CFB, both executed symbolically on the same symbolic plaintext with the block cipher as an uninterpreted function, for every length in the tier's set (one path per length class), in place and out of place; plus round trips for Salsa20 (uninterpreted keystream), XOR and none. Most equalities are discharged by term normalisation (xor cancellation over hash-consed UF terms), the rest by the solver; a mismatch yields a concrete plaintext replayed with real AES/DES. Bounded (lengths) symbolic model checking valid for every block function.",
+   note="Trusted: gse, solvers, the 15-line reference. Quick covers lengths 0..300 and 1400..1500, thorough all of 0..1500.",
+   design="§4 C08"),
+ "C06": dict(
+   text="Non-interference as a write-set property: for arbitrary datagram bytes on which the configured check fails (stored CRC != f(rest) with f uninterpreted; AEAD Open fails; too short), on every feasible path of the real Listener.packetInput / UDPSession.packetInput the set of locations written — recorded by the executor for everything reachable from listener, table, accept queue and sessions — is empty apart from the error counter and cipher scratch. Conversely every datagram the real send path emits passes the receiver's check (so the CRC covers exactly what is checked, parity included). Bounded symbolic model checking.",
+   note="Trusted: gse's store journal (native twin: deep snapshot), solvers; CRC/AEAD strength assumed. Lengths 0..64.",
+   design="§4 C06"),
+ "C09": dict(
+   text="Every datagram a real session puts on the stub socket (cipher x FEC) is parsed by an independent decoder written from the README; CRC range, FEC id/type/size, header fields and payload lengths are asserted and the written stream is reassembled from the wire alone; nonces of any two datagrams come from different entropy calls. Core-level flush harnesses (C04/C10) decode every emitted datagram with the same independent decoder; the encoder's id/type cycle and what is fed to the codec are covered by the C07 harnesses. Bounded symbolic model checking; entropy quality assumed.",
+   note="Trusted: gse, solvers, the README-derived decoder. Two writes per run at session level.",
+   design="§4 C09"),
+ "C11": dict(
+   text="One step of the listener's demultiplexer from a table with two peers: write sets of a datagram from one address are disjoint from every other session and table entry; exactly one session/accept per new peer (none when the backlog is full or no conv is present); a foreign conversation id from a known address is ignored or, with sn=0, replaces the session with a fresh one; the core rejects a foreign conv without effect; the dialled read loop drops foreign sources. Sequential by construction of the listener (one goroutine), so sequences of steps cover interleavings. Bounded symbolic model checking.",
+   note="Trusted: gse's store journal, solvers. recvmmsg loop and post-close ghost sessions outside.",
+   design="§4 C11"),
+ "C19": dict(
+   text="SendOOB -> real postProcess -> real Listener.packetInput -> handler, with symbolic payload bytes at lengths {0,1,max-1,max,max+1} for three cipher classes: intact or refused, exactly once, never touching KCP, FEC encoder sequence/shard state or FEC decoder (write sets), size on the wire within the MTU, full queue dropped and recycled once, no FEC -> refused. Bounded symbolic model checking.",
+   note="Trusted: gse, solvers. Sequential; rates are argued per call.",
+   design="§4 C19"),
 }
 
 NOT_APPLICABLE = {}
